@@ -1,70 +1,2 @@
-(* GENERATED by gen/gen_consts.py from the current /repo sources -- do not edit *)
-From Coq Require Import ZArith List.
-Import ListNotations.
-Local Open Scope Z_scope.
-
-(* hdf/src/mfgr.h *)
-Definition MFGR_INTERLACE_PIXEL : Z := 0.
-Definition MFGR_INTERLACE_LINE : Z := 1.
-Definition MFGR_INTERLACE_COMPONENT : Z := 2.
-(* hdf/src/hcomp.h *)
-Definition COMP_CODE_NONE : Z := 0.
-Definition COMP_CODE_RLE : Z := 1.
-Definition COMP_CODE_SKPHUFF : Z := 3.
-Definition COMP_CODE_DEFLATE : Z := 4.
-(* hdf/src/hntdefs.h *)
-Definition DFNTF_HDFDEFAULT : Z := 1.
-Definition DFNTF_PC : Z := 4.
-Definition DFNTC_BYTE : Z := 0.
-Definition FILL_ATTR : list Z := [70; 105; 108; 108; 86; 97; 108; 117; 101].
-
-(* ---- plugin gr_exprs.py: address arithmetic of hdf/src/mfgr.c (nat; casts dropped) ---- *)
-Definition ilc_in_comp_ptr (il : nat) (i : nat) (comp_size : nat) (pixel_size : nat) (ncomp : nat) (dimX : nat) (dimY : nat) : nat := (match il with | 0 => i * comp_size | 1 => i * dimX * comp_size | 2 => i * dimY * dimX * comp_size | _ => 0 end)%nat.
-Definition ilc_in_pixel_add (il : nat) (i : nat) (comp_size : nat) (pixel_size : nat) (ncomp : nat) (dimX : nat) (dimY : nat) : nat := (match il with | 0 => pixel_size | 1 => comp_size | 2 => comp_size | _ => 0 end)%nat.
-Definition ilc_in_line_add (il : nat) (i : nat) (comp_size : nat) (pixel_size : nat) (ncomp : nat) (dimX : nat) (dimY : nat) : nat := (match il with | 0 => 0 | 1 => ( (ncomp - 1) * dimX * comp_size) | 2 => 0 | _ => 0 end)%nat.
-Definition ilc_out_comp_ptr (il : nat) (i : nat) (comp_size : nat) (pixel_size : nat) (ncomp : nat) (dimX : nat) (dimY : nat) : nat := (match il with | 0 => i * comp_size | 1 => i * dimX * comp_size | 2 => i * dimY * dimX * comp_size | _ => 0 end)%nat.
-Definition ilc_out_pixel_add (il : nat) (i : nat) (comp_size : nat) (pixel_size : nat) (ncomp : nat) (dimX : nat) (dimY : nat) : nat := (match il with | 0 => pixel_size | 1 => comp_size | 2 => comp_size | _ => 0 end)%nat.
-Definition ilc_out_line_add (il : nat) (i : nat) (comp_size : nat) (pixel_size : nat) (ncomp : nat) (dimX : nat) (dimY : nat) : nat := (match il with | 0 => 0 | 1 => ( (ncomp - 1) * dimX * comp_size) | 2 => 0 | _ => 0 end)%nat.
-Definition ilc_loop_outer (ncomp : nat) (dimX : nat) (dimY : nat) : nat := (dimY)%nat.
-Definition ilc_loop_mid (ncomp : nat) (dimX : nat) (dimY : nat) : nat := (dimX)%nat.
-Definition ilc_loop_inner (ncomp : nat) (dimX : nat) (dimY : nat) : nat := (ncomp)%nat.
-Definition ilc_loop_wrap (ncomp : nat) (dimX : nat) (dimY : nat) : nat := (ncomp)%nat.
-Definition ilc_copy_len (comp_size : nat) (pixel_size : nat) : nat := (comp_size)%nat.
-Definition ilc_wrap_cond (inil outil : nat) : bool := (orb (Nat.eqb (inil) (1)) (Nat.eqb (outil) (1)))%nat.
-Definition ilc_same_cond (inil outil : nat) : bool := (Nat.eqb (inil) (outil))%nat.
-Definition ilc_same_len (pixel_size : nat) (dimX : nat) (dimY : nat) : nat := (dimX * dimY * pixel_size)%nat.
-Definition wr_img_offset (xdim : nat) (ydim : nat) (psz : nat) (sx : nat) (sy : nat) (tx : nat) (ty : nat) (cx : nat) (cy : nat) : nat := (((xdim * sy) + sx) * psz)%nat.
-Definition wr_fill_lo_size (xdim : nat) (ydim : nat) (psz : nat) (sx : nat) (sy : nat) (tx : nat) (ty : nat) (cx : nat) (cy : nat) : nat := (psz * sx)%nat.
-Definition wr_fill_hi_size (xdim : nat) (ydim : nat) (psz : nat) (sx : nat) (sy : nat) (tx : nat) (ty : nat) (cx : nat) (cy : nat) : nat := (psz * (xdim - (sx + ((cx - 1) * tx) + 1)))%nat.
-Definition wr_fill_line_size (xdim : nat) (ydim : nat) (psz : nat) (sx : nat) (sy : nat) (tx : nat) (ty : nat) (cx : nat) (cy : nat) : nat := (psz * xdim)%nat.
-Definition wr_pix_len (xdim : nat) (ydim : nat) (psz : nat) (sx : nat) (sy : nat) (tx : nat) (ty : nat) (cx : nat) (cy : nat) : nat := (psz * cx)%nat.
-Definition wr_fill_stride_size (xdim : nat) (ydim : nat) (psz : nat) (sx : nat) (sy : nat) (tx : nat) (ty : nat) (cx : nat) (cy : nat) : nat := (psz * (tx - 1))%nat.
-Definition wr_stride_add (xdim : nat) (ydim : nat) (psz : nat) (sx : nat) (sy : nat) (tx : nat) (ty : nat) (cx : nat) (cy : nat) : nat := (psz * tx)%nat.
-Definition wr_row_add (xdim : nat) (ydim : nat) (psz : nat) (sx : nat) (sy : nat) (tx : nat) (ty : nat) (cx : nat) (cy : nat) : nat := (psz * xdim)%nat.
-Definition wr_srow_add (xdim : nat) (ydim : nat) (psz : nat) (sx : nat) (sy : nat) (tx : nat) (ty : nat) (cx : nat) (cy : nat) : nat := (xdim * ty * psz)%nat.
-Definition wr_fill_lo_cond (xdim : nat) (ydim : nat) (psz : nat) (sx : nat) (sy : nat) (tx : nat) (ty : nat) (cx : nat) (cy : nat) : bool := (Nat.ltb (0) (sx))%nat.
-Definition wr_fill_hi_cond (xdim : nat) (ydim : nat) (psz : nat) (sx : nat) (sy : nat) (tx : nat) (ty : nat) (cx : nat) (cy : nat) : bool := (Nat.ltb ((sx + ((cx - 1) * tx) + 1)) (xdim))%nat.
-Definition wr_trail_from_0 (xdim : nat) (ydim : nat) (psz : nat) (sx : nat) (sy : nat) (tx : nat) (ty : nat) (cx : nat) (cy : nat) : nat := (sy + ((cy - 1) * ty) + 1)%nat.
-Definition wr_trail_to_0 (xdim : nat) (ydim : nat) (psz : nat) (sx : nat) (sy : nat) (tx : nat) (ty : nat) (cx : nat) (cy : nat) : nat := (ydim)%nat.
-Definition wr_trail_from_1 (xdim : nat) (ydim : nat) (psz : nat) (sx : nat) (sy : nat) (tx : nat) (ty : nat) (cx : nat) (cy : nat) : nat := (sy + ((cy - 1) * ty) + 1)%nat.
-Definition wr_trail_to_1 (xdim : nat) (ydim : nat) (psz : nat) (sx : nat) (sy : nat) (tx : nat) (ty : nat) (cx : nat) (cy : nat) : nat := (ydim)%nat.
-Definition wr_trail_loops  : nat := (2)%nat.
-Definition rd_img_offset (xdim : nat) (ydim : nat) (psz : nat) (sx : nat) (sy : nat) (tx : nat) (ty : nat) (cx : nat) (cy : nat) : nat := (((xdim * sy) + sx) * psz)%nat.
-Definition rd_pix_len (xdim : nat) (ydim : nat) (psz : nat) (sx : nat) (sy : nat) (tx : nat) (ty : nat) (cx : nat) (cy : nat) : nat := (psz * cx)%nat.
-Definition rd_stride_add (xdim : nat) (ydim : nat) (psz : nat) (sx : nat) (sy : nat) (tx : nat) (ty : nat) (cx : nat) (cy : nat) : nat := (psz * tx)%nat.
-Definition rd_row_add (xdim : nat) (ydim : nat) (psz : nat) (sx : nat) (sy : nat) (tx : nat) (ty : nat) (cx : nat) (cy : nat) : nat := (psz * xdim)%nat.
-Definition rd_srow_add (xdim : nat) (ydim : nat) (psz : nat) (sx : nat) (sy : nat) (tx : nat) (ty : nat) (cx : nat) (cy : nat) : nat := (xdim * ty * psz)%nat.
-Definition lut_dimX (nentries : nat) : nat := (1)%nat.
-Definition lut_dimY (nentries : nat) : nat := (nentries)%nat.
-(* ---- GRIupdatemeta: bytes 1 (type) and 3 (class / subclass) of the image's DFTAG_NT record ---- *)
-Definition nt_rec_type (nt fsub : Z) : Z := (Z.modulo nt 256).
-Definition nt_rec_class (nt fsub : Z) : Z := if Z.eqb (Z.land nt 16384) 0 then 0 else 4.
-(* dfconv.c: DFKNTsize switches on this expression *)
-Definition dfkntsize_selector (number_type : Z) : Z := (Z.land number_type (Z.lnot 16384)).
-(* ---- hdf/src/dfrle.c: limits of DFCIrle / DFCIunrle ---- *)
-Definition dfrle_run_window  : nat := (120)%nat.
-Definition dfrle_min_run  : nat := (2)%nat.
-Definition dfrle_lit_flush  : nat := (120)%nat.
-Definition dfrle_run_flag  : nat := (128)%nat.
-Definition dfrle_dec_flag  : nat := (128)%nat.
-Definition dfrle_dec_mask  : nat := (127)%nat.
+(* GENERATED: translator failed: gr_exprs: unexpected number-type record code in GRIupdatemeta: [('', '0'), ('img_ptr->img_dim.nt & 0x00001000', '(uint8)DFKgetPNSC(img_ptr->img_dim.nt & (~0x00001000), 0x4441)'), ('img_ptr->img_dim.nt & 0x00004000', '4')] *)
+Definition translator_failed : True := I I.
